@@ -1,7 +1,7 @@
 (* Self-test of the flow semantics: runs a regenerated flow of vlib/pysem_src.py (gen/F_pysem.v) in the standard world with
    an EMPTY extension on arguments given as boundary values. The Python side runs the same function in CPython. *)
 From V Require Import Prelude.PyAst.
-From V Require Import Prelude.Base Prelude.Val Prelude.PyWorld gen.F_pysem.
+From V Require Import Prelude.Base Prelude.Val Prelude.PyWorld Prelude.PyAstMut gen.F_pysem.
 Import ListNotations.
 Local Open Scope string_scope.
 
@@ -50,7 +50,20 @@ Definition u_pysem_run (a : val) : val :=
   | _ => bad
   end.
 
-Definition units : list (string * (val -> val)) := [ ("pysem.run", u_pysem_run) ].
+(* the same through the second interpreter (Prelude/PyAstMut.v) with no argument-mutating callee declared *)
+Definition mw0 : mworld PV :=
+  {| mw_base := std_world (no_ext Empty_set); mw_call_mut := fun _ _ => None; mw_meth_mut := fun _ _ _ => None |}.
+Definition u_pysem_run_mut (a : val) : val :=
+  match a with
+  | Val.VL [Val.VS name; Val.VL args] =>
+    match find_flow (string_of_codes name) pysem_flows with
+    | Some f => vres (fun p => of_pv (fst p)) (run_mut mw0 100000 f (map to_pv args))
+    | None => Val.VE KeyError
+    end
+  | _ => bad
+  end.
+
+Definition units : list (string * (val -> val)) := [ ("pysem.run", u_pysem_run); ("pysem.run_mut", u_pysem_run_mut) ].
 
 Fixpoint lookup (n : string) (l : list (string * (val -> val))) : option (val -> val) :=
   match l with
